@@ -255,7 +255,7 @@ Relevant(m, v) ==
     ELSE CASE m.type = "PrepareRequest" -> m.view = s.view /\ ~HasReq(s)
            [] m.type = "PrepareResponse" -> m.view = s.view /\ m.from \notin s.prep
            [] m.type = "Commit" -> m.view <= s.view /\ ~\E c \in s.cmt : c.from = m.from
-           [] m.type = "ChangeView" -> IF m.view > s.view /\ ~Committed(s, v) THEN ~\E c \in s.cv : c.from = m.from /\ c.nv >= m.view
+           [] m.type = "ChangeView" -> IF m.view > s.view /\ (~Committed(s, v) \/ Bug = "NoCommitLock") THEN ~\E c \in s.cv : c.from = m.from /\ c.nv >= m.view
                                        ELSE rc < MaxRec
            [] m.type = "RecoveryRequest" -> rc < MaxRec /\ m.view <= s.view
            [] OTHER -> TRUE
